@@ -167,8 +167,21 @@ func (q *quorumAckTracker) AdvanceHeadOffset(headOffset int64) {
 
 	if q.requiredAcks == 0 {
 		q.notifyCommitOffsetAdvanced(headOffset)
-	} else {
+		return
+	}
+
+	e, found := q.tracker[headOffset]
+	if !found {
 		q.tracker[headOffset] = &util.BitSet{}
+		return
+	}
+
+	// Some followers have already acked this entry before the head offset
+	// was advanced (an entry can be read from the WAL as soon as it is synced,
+	// which is before the sync callback gets to advance the head offset)
+	if uint32(e.Count()) >= q.requiredAcks {
+		delete(q.tracker, headOffset)
+		q.notifyCommitOffsetAdvanced(headOffset)
 	}
 }
 
@@ -232,6 +245,11 @@ func (q *quorumAckTracker) WaitForCommitOffsetAsync(_ context.Context, offset in
 }
 
 func (q *quorumAckTracker) notifyCommitOffsetAdvanced(commitOffset int64) {
+	if commitOffset <= q.commitOffset.Load() {
+		// The commit offset must never move backward
+		return
+	}
+
 	q.commitOffset.Store(commitOffset)
 
 	for _, r := range q.waitingRequests {
@@ -293,16 +311,25 @@ func (c *cursorAcker) Ack(offset int64) {
 func (c *cursorAcker) ack(offset int64) {
 	q := c.quorumTracker
 
+	headOffset := q.headOffset.Load()
 	e, found := q.tracker[offset]
 	if !found {
-		// The entry has already previously reached the quorum.
-		// There's nothing more left to do here.
-		return
+		if offset <= headOffset {
+			// The entry has already previously reached the quorum.
+			// There's nothing more left to do here.
+			return
+		}
+
+		// The follower has acked the entry before the head offset was advanced.
+		// Keep track of the ack: the entry will be checked for the quorum
+		// when the head offset reaches it.
+		e = &util.BitSet{}
+		q.tracker[offset] = e
 	}
 
 	// Mark that this follower has acked the entry
 	e.Set(c.cursorIdx)
-	if uint32(e.Count()) == q.requiredAcks {
+	if offset <= headOffset && uint32(e.Count()) == q.requiredAcks {
 		delete(q.tracker, offset)
 
 		// Advance the commit offset
